@@ -53,7 +53,10 @@ class IntegerNode(BaseNode, SelectNode):
                 self.value_raw = s.solve(self.value_fn, self.units_raw)
         if self.value_expr: # Process expression
             with NumericalSolver(env) as s:
-                self.value_raw = np.round(s.solve(self.value_expr, self.units_raw))
+                self.value_raw = s.solve(self.value_expr, self.units_raw)
+                if not self.units_raw and hasattr(self.value_raw, 'baseunits'):
+                    self.value_raw = self.value_raw.value('1')  # node without units: the result must be a pure number
+                self.value_raw = np.round(self.value_raw)
         # Testing validity of units
         if self.units_raw:
             with UnitEnvironment(env.units):
